@@ -2,6 +2,9 @@ import Rare.Model.C16
 /-! Helper lemmas for property C16 (JSON views). -/
 namespace Rare.C16
 
+/-- ASCII literal as bytes, reducible by `decide` (for examples) -/
+def lit (s : String) : Bytes := s.toList.map (fun c => UInt8.ofNat c.toNat)
+
 /-! ### `escape` is a byte-wise substitution -/
 
 /-- what `escape` does to one byte -/
